@@ -348,6 +348,32 @@ func init() {
 				}
 				i++
 			}
+			// size-directed programs: every varint class boundary, long code: decode, re-encode and load
+			for _, f := range c09FixedList() {
+				if c.Mine(i) {
+					c.Begin(i)
+					src := []byte(f.src())
+					var lg bytes.Buffer
+					if p, err := bcl.Parse(src, f.name, bcl.OptLogger(&lg), bcl.OptOutput(&lg)); err == nil {
+						c.Eval(1)
+						d, derr, pan, _ := dumpOf(p)
+						switch {
+						case derr != nil || pan != "":
+							c.Violation("dump-fails", fmt.Sprintf("Dump failed (%s): %v %s", f.tag, derr, pan), nil)
+						default:
+							if why := decoderAgrees(d, p); why != "" {
+								c.Violation("dump-layout:"+stripDigits(core.Trunc(why, 40)), "fresh dump ("+f.tag+") does not follow the documented layout: "+why, map[string]any{"source_len": len(src)})
+							} else if _, _, lerr, lpan, _ := observeLoaded(bytes.NewReader(d), "x"); lerr != nil || lpan != "" {
+								c.Violation("fresh-dump-does-not-load", fmt.Sprintf("a fresh dump (%s, %d bytes) that follows the layout is refused by the loader: %v %s", f.tag, len(d), lerr, lpan), nil)
+							} else {
+								c.Count("size_directed_dumps_decoded_reencoded_loaded", 1)
+								c.Nontrivial(core.Hash(d))
+							}
+						}
+					}
+				}
+				i++
+			}
 			n := int64(c.Pick(20000, 6000000))
 			for k := int64(0); k < n; k++ {
 				if c.Mine(i) {
